@@ -38,7 +38,7 @@ func runC10(c *Ctx) {
 	checkPendingReads(c, "R10e")
 	c.Rule("R10f", ruleTextPartialAnywhere, 1)
 	checkPartialAnywhere(c, "R10f")
-	c.Rule("R10i", ruleTextNotFoundOnly, 2)
+	c.Rule("R10i", ruleTextNotFoundOnly, 1)
 	checkNotFoundOnly(c, "R10i")
 	c.Rule("R10g", ruleTextPendingLowerBound, 3)
 	checkPendingLowerBound(c, "R10g")
